@@ -453,7 +453,7 @@ class PosOuter(ComplexModel):
 POSITIONS = ['top', 'nested', 'array-member', 'repeated-member', 'xml-attribute']
 
 
-@harness('C05', params=[(pos, fam) for pos in POSITIONS for fam in ('xml', 'json')],
+@harness('C05', params=[(pos, fam) for pos in POSITIONS for fam in ('xml', 'json')] + [(pos, 'http') for pos in ('top', 'nested', 'xml-attribute')],
          label=lambda p: '%s %s' % p,
          functions=['spyne.protocol.xml.XmlDocument.complex_from_element', 'spyne.protocol.xml.XmlDocument.array_from_element',
                     'spyne.protocol.dictdoc.hier.HierDictDocument._doc_to_object'],
@@ -480,6 +480,13 @@ def constraint_positions(sx, p):
         else:
             kids = [e('inner', kids=[e('v', '7')], att={'att': text})]
         out = run_soft(lambda: XML.from_element(CTX, PosOuter, e('o', kids=kids)))
+    elif fam == 'http':
+        L = sx.choose('len', [1, 2, 3, 4])
+        text = sx.text('t', L, alphabet='0123456789-x')
+        lit, want = int_literal(sx, text)
+        ok = sx.And(lit, want >= 0, want <= 200)
+        key = {'top': 'top', 'nested': 'inner.v', 'xml-attribute': 'inner.att'}[pos]
+        out = run_soft(lambda: HTTP.simple_dict_to_object(CTX, sx.mkdict([(key, [text])]), PosOuter, HTTP.validator))
     else:
         want = sx.int('v')
         ok = sx.And(want >= 0, want <= 200)
